@@ -62,9 +62,9 @@ Theorem gen_tree_move_assign :
     (* and afterwards x.Clear() is a no-op *)
     (let '(c, n, r, p) := src' in Gen_TreeSet.Clear (Gen_SetCrew.pvIsNull c) n r p = GenPrelude.Ok (tt, n, r, p)).
 Proof.
-  intros. simpl. repeat split; try reflexivity.
+  intros. cbv beta iota zeta delta [tree_move_assign Gen_TreeSet3.MoveCtor Gen_SetCrew2.MoveCtor Gen_TreeSet2.Swap]. repeat split; try reflexivity.
   intros H. unfold Gen_TreeSet.pvDestroy, Gen_SetCrew.pvIsNull.
-  destruct (Z.eqb_spec tc 0) as [E|E]; simpl.
+  destruct (Z.eqb_spec tc 0) as [E|E]; cbn [negb andb orb].
   - destruct H as [H|[-> ->]]; [contradiction|reflexivity].
   - destruct (negb (tr =? 0)), (negb (tp =? 0)); reflexivity.
 Qed.
@@ -163,7 +163,7 @@ Theorem gen_D12_refuted :
     w_swap tr MovedFrom c w = NullCrew.
 Proof.
   intros tr c w H. split.
-  - unfold Gen_StdishDecisions.um_swap_assert. rewrite H. simpl. discriminate.
+  - unfold Gen_StdishDecisions.um_swap_assert. rewrite H. cbn [orb]. discriminate.
   - apply D12_refuted. exact H.
 Qed.
 Theorem gen_D13_refuted :
